@@ -179,6 +179,7 @@ func Check(p Property, o CheckOpts) int {
 			}
 			again := exec.Command(self, "worker", "-prop", id, "-tier", o.Tier, "-seed", fmt.Sprint(o.Seed),
 				"-lo", fmt.Sprint(idx), "-hi", fmt.Sprint(idx+1), "-stride", "1", "-out", pr.out+".again", "-treefp", o.TreeFP)
+			again.Env = append(os.Environ(), "VERIF_SITES="+o.SitesJSON)
 			if e2 := again.Run(); e2 != nil {
 				rp := filepath.Join(o.VerifDir, "replays", fmt.Sprintf("%s-%d-%d-crash.json", id, o.Seed, idx))
 				os.MkdirAll(filepath.Dir(rp), 0o755)
@@ -269,6 +270,12 @@ func Check(p Property, o CheckOpts) int {
 		os.MkdirAll(filepath.Dir(rp), 0o755)
 		js, _ := json.MarshalIndent(f, "", " ")
 		os.WriteFile(rp, js, 0o644)
+		// make the file exact for a fresh process (see cmd/sim, -rewrite)
+		if self != "" {
+			rc := exec.Command(self, "replay", "-prop", id, "-file", rp, "-rewrite", "-quiet")
+			rc.Env = os.Environ()
+			rc.Run()
+		}
 		fmt.Printf("violation: class=%s site=%s shape=%s detail=%s\n", f.Violation.Class, f.Violation.Site, f.Violation.Shape, f.Violation.Detail)
 		violationLines = append(violationLines, fmt.Sprintf("VIOLATION property=%s replay=%s", id, rp))
 		exit = 1
